@@ -700,6 +700,10 @@ class _InProgress:
         flag = self._flags.get(an_id, None)
         return flag is not None and flag[0]
 
+    def flag_of(self, an_id: int) -> Optional[List[bool]]:
+        """Return the flag of the mark of ``an_id``, if any."""
+        return self._flags.get(an_id, None)
+
     def added(self, an_id: int) -> "_InProgress":
         """Return the collection with ``an_id`` marked anew."""
         flags = {
@@ -723,14 +727,34 @@ _IN_PROGRESS = contextvars.ContextVar(
 )  # type: contextvars.ContextVar[_InProgress]
 
 
-def _add_in_progress(an_id: int) -> None:
-    """Mark the function or the instance with ``an_id`` as being checked in the current context."""
-    _IN_PROGRESS.set(_IN_PROGRESS.get().added(an_id))
+def _add_in_progress(an_id: int) -> List[bool]:
+    """
+    Mark the function or the instance with ``an_id`` as being checked in the current context.
+
+    :return: the flag of the mark, to be handed over to :py:func:`_discard_in_progress`
+    """
+    in_progress = _IN_PROGRESS.get().added(an_id)
+    _IN_PROGRESS.set(in_progress)
+
+    flag = in_progress.flag_of(an_id)
+    assert flag is not None
+    return flag
 
 
-def _discard_in_progress(an_id: int) -> None:
-    """Remove the mark that the function or the instance with ``an_id`` is being checked in the current context."""
-    _IN_PROGRESS.set(_IN_PROGRESS.get().discarded(an_id))
+def _discard_in_progress(an_id: int, flag: List[bool]) -> None:
+    """
+    Remove the mark with the ``flag`` that the function or the instance with ``an_id`` is being checked.
+
+    The mark is usually removed in the context which set it. However, a suspended call can also be finalized elsewhere
+    (*e.g.*, a coroutine closed by the garbage collector in whatever context that happens to run). The flag is lowered
+    in any case, so that the context which set the mark does not consider it any more, while the mark which
+    the *current* context holds for ``an_id`` is removed only if it is the very same mark.
+    """
+    in_progress = _IN_PROGRESS.get()
+    if in_progress.flag_of(an_id) is flag:
+        _IN_PROGRESS.set(in_progress.discarded(an_id))
+
+    flag[0] = False
 
 
 def decorate_with_checker(func: CallableT) -> CallableT:
@@ -811,7 +835,7 @@ def decorate_with_checker(func: CallableT) -> CallableT:
             if id_func in in_progress:
                 return await func(*args, **kwargs)
 
-            _add_in_progress(id_func)
+            flag = _add_in_progress(id_func)
 
             # Use try-finally instead of ExitStack for performance.
             try:
@@ -845,7 +869,7 @@ def decorate_with_checker(func: CallableT) -> CallableT:
                         snapshots=snapshots, resolved_kwargs=resolved_kwargs
                     )
             finally:
-                _discard_in_progress(id_func)
+                _discard_in_progress(id_func, flag)
 
             # The contract checking is suspended only while the contracts are checked, but not while the function
             # itself is executed. Otherwise, the calls to the same function made from its body (*e.g.*, in a recursion)
@@ -857,7 +881,7 @@ def decorate_with_checker(func: CallableT) -> CallableT:
             result = await func(*args, **kwargs)
 
             if postconditions:
-                _add_in_progress(id_func)
+                flag = _add_in_progress(id_func)
 
                 try:
                     resolved_kwargs["result"] = result
@@ -868,7 +892,7 @@ def decorate_with_checker(func: CallableT) -> CallableT:
                     if violation_error is not None:
                         raise violation_error
                 finally:
-                    _discard_in_progress(id_func)
+                    _discard_in_progress(id_func, flag)
 
             return result
 
@@ -890,7 +914,7 @@ def decorate_with_checker(func: CallableT) -> CallableT:
             if id_func in in_progress:
                 return func(*args, **kwargs)
 
-            _add_in_progress(id_func)
+            flag = _add_in_progress(id_func)
 
             # Use try-finally instead of ExitStack for performance.
             try:
@@ -926,7 +950,7 @@ def decorate_with_checker(func: CallableT) -> CallableT:
                         snapshots=snapshots, resolved_kwargs=resolved_kwargs, func=func
                     )
             finally:
-                _discard_in_progress(id_func)
+                _discard_in_progress(id_func, flag)
 
             # The contract checking is suspended only while the contracts are checked, but not while the function
             # itself is executed. Otherwise, the calls to the same function made from its body (*e.g.*, in a recursion)
@@ -938,7 +962,7 @@ def decorate_with_checker(func: CallableT) -> CallableT:
             result = func(*args, **kwargs)
 
             if postconditions:
-                _add_in_progress(id_func)
+                flag = _add_in_progress(id_func)
 
                 try:
                     resolved_kwargs["result"] = result
@@ -951,7 +975,7 @@ def decorate_with_checker(func: CallableT) -> CallableT:
                     if violation_error is not None:
                         raise violation_error
                 finally:
-                    _discard_in_progress(id_func)
+                    _discard_in_progress(id_func, flag)
 
             return result
 
@@ -1205,7 +1229,7 @@ def _decorate_with_invariants(
                 # We must also not re-enable the checks for the instance on leaving this call.
                 return func(*args, **kwargs)
 
-            _add_in_progress(id_instance)
+            flag = _add_in_progress(id_instance)
 
             # ExitStack is not used here due to performance.
             try:
@@ -1216,7 +1240,7 @@ def _decorate_with_invariants(
 
                 return result
             finally:
-                _discard_in_progress(id_instance)
+                _discard_in_progress(id_instance, flag)
 
     else:
         # (mristin, 2021-02-16)
@@ -1258,7 +1282,7 @@ def _decorate_with_invariants(
                 # we need to suspend any further invariant check to avoid endless recursion.
                 id_instance = id(instance)
                 if id_instance not in in_progress:
-                    _add_in_progress(id_instance)
+                    flag = _add_in_progress(id_instance)
                 else:
                     # Do not check any invariants to avoid endless recursion.
                     return await func(*args, **kwargs)
@@ -1275,7 +1299,7 @@ def _decorate_with_invariants(
 
                     return result
                 finally:
-                    _discard_in_progress(id_instance)
+                    _discard_in_progress(id_instance, flag)
 
         else:
 
@@ -1306,7 +1330,7 @@ def _decorate_with_invariants(
 
                 id_instance = id(instance)
                 if id_instance not in in_progress:
-                    _add_in_progress(id_instance)
+                    flag = _add_in_progress(id_instance)
                 else:
                     # Do not check any invariants to avoid endless recursion.
                     return func(*args, **kwargs)
@@ -1323,7 +1347,7 @@ def _decorate_with_invariants(
 
                     return result
                 finally:
-                    _discard_in_progress(id_instance)
+                    _discard_in_progress(id_instance, flag)
 
     functools.update_wrapper(wrapper=wrapper, wrapped=func)
 
